@@ -303,7 +303,7 @@ func runC15(c *fw.Ctx) {
 		m.recheck(rig)
 	}
 	// random lists and random byte strings
-	nr := c.Pick(1500, 20000)
+	nr := c.Pick(1500, 120000)
 	if light {
 		nr = 200
 	}
